@@ -818,11 +818,11 @@ class Gen:
                 if file_ok([f"{name}/{o}"]):
                     wf["outputs"][f"c{n}"] = {"type": cwl_type(types[f"{name}/{o}"]), "outputSource": f"{name}/{o}"}
                     n += 1
-        # the same for outputs of a sub-workflow step that nothing reads
+        # the same for outputs of a sub-workflow step / of a loop step that nothing reads
         for pth, what, key in unconnected(wf):
             parts = [x for x in pth.split("/") if x]
-            if what == "output" and len(parts) == 1 and r.random() < 0.93:
-                src = f"{parts[0]}/{key}"
+            if ((what == "output" and len(parts) == 1) or (what == "loopout" and not parts)) and r.random() < 0.93:
+                src = f"{parts[0]}/{key}" if parts else key
                 if src in types and file_ok([src]):
                     wf["outputs"][f"c{n}"] = {"type": cwl_type(types[src]), "outputSource": src}
                     n += 1
@@ -1047,6 +1047,14 @@ def unconnected(wf, live_outputs=None, path=""):
     out.extend((path, "step", n) for n in sorted(dead))
     for n in sorted(live):
         st = wf["steps"][n]
+        # `out` entries of a live step that nothing live reads
+        lp = (st.get("requirements") or {}).get("cwltool:Loop")
+        loop_needed = set()
+        for v in ((lp or {}).get("loop") or {}).values():
+            loop_needed.update(sources_of(v if isinstance(v, dict) else {"source": v}))
+        for o in st["out"]:
+            if f"{n}/{o}" not in used:
+                out.append((path, "loopout" if o in loop_needed else "out", f"{n}/{o}"))
         if not _plain_subworkflow(st):
             continue
         inner_live = {o for o in st["out"] if f"{n}/{o}" in used}
@@ -1076,7 +1084,7 @@ def doc_features(wf):
             F.add("repeated_source")
         if dangling_steps(w):
             F.add("dangling_step")
-        if not path and any(x[1] != "input" for x in unconnected(w)):
+        if not path and any(x[1] in ("step", "output", "loopout") for x in unconnected(w)):
             F.add("unconnected_part")
         for d in w["outputs"].values():
             if isinstance(d, dict):
